@@ -18,6 +18,7 @@ import (
 //   u   text with non-ASCII words, never NULL (several functions raise an error on NULL text)
 //   d   datetime text, never NULL
 //   j   JSON text
+//   e   (round 5) datetime text in formats csvq only reads when @@DATETIME_FORMAT names them
 
 var uWords = []string{
 	"hello world", "été à la plage", "日本語 テキスト", "straße groß", "ÀÉÎ õü ñ", "привет мир",
@@ -27,7 +28,7 @@ var uWords = []string{
 
 func makeT4(r *rng, n int) string {
 	var b strings.Builder
-	b.WriteString("id,n,x,u,d,j\n")
+	b.WriteString("id,n,x,u,d,j,e\n")
 	ids := r.perm(n)
 	for i := 0; i < n; i++ {
 		nv := fmt.Sprint(r.n(101) - 40)
@@ -49,7 +50,25 @@ func makeT4(r *rng, n int) string {
 			d = fmt.Sprintf("20%02d-%02d-%02d %02d:%02d:%02d", r.n(30), 1+r.n(12), 1+r.n(28), r.n(24), r.n(60), r.n(60))
 		}
 		j := fmt.Sprintf(`{"a":%d,"b":["x","é%d"],"c":{"d":"%s"}}`, r.n(50), r.n(9), sAlphabet[r.n(4)])
-		fmt.Fprintf(&b, "%d,%s,%s,%s,%s,%s\n", ids[i]+1, nv, xv, csvCell(u), d, csvCell(j))
+		var e string
+		switch r.n(3) {
+		case 0:
+			// %d/%m/%Y or %m/%d/%Y: two thirds of the texts are read by both (the order of the formats
+			// decides), the others by only one of them (a first or second number above 12)
+			a, b := 1+r.n(12), 1+r.n(12)
+			switch r.n(6) {
+			case 0:
+				a = 13 + r.n(16)
+			case 1:
+				b = 13 + r.n(16)
+			}
+			e = fmt.Sprintf("%02d/%02d/20%02d", a, b, r.n(30))
+		case 1:
+			e = fmt.Sprintf("20%02d%02d%02d", r.n(30), 1+r.n(12), 1+r.n(28)) // %Y%m%d
+		default:
+			e = fmt.Sprintf("%02d-%02d-%02d %02d.%02d", 1+r.n(12), 1+r.n(28), r.n(30), r.n(24), r.n(60)) // %m-%d-%y %H.%i
+		}
+		fmt.Fprintf(&b, "%d,%s,%s,%s,%s,%s,%s\n", ids[i]+1, nv, xv, csvCell(u), d, csvCell(j), e)
 	}
 	return b.String()
 }
@@ -87,6 +106,23 @@ var fnArgs = map[string][]string{
 	"DATE_DIFF": {"d, '2020-01-01'"}, "TIME_DIFF": {"d, '2020-01-01 12:00:00'"}, "TIME_NANO_DIFF": {"d, '2020-01-01 12:00:00'"}, "UTC": {"d"},
 	"MILLI_TO_DATETIME": {"n * 86400000"}, "NANO_TO_DATETIME": {"n * 86400000000000"},
 	"STRING": {"n", "x", "d"}, "INTEGER": {"x", "x * 10", "STRING(n)"}, "FLOAT": {"n", "STRING(n) || '.5'"}, "BOOLEAN": {"n % 2", "n > x"}, "TERNARY": {"n % 2", "n > x"}, "DATETIME": {"d", "n"},
+}
+
+// fnArgs5 (round 5): argument forms whose pattern / format / query argument DIFFERS FROM ROW TO ROW, so
+// that the process-wide caches behind them (compiled regular expressions, converted datetime formats,
+// parsed JSON queries: sync.Map + mutex, filled on first use) are filled by several workers at once,
+// and arguments in the formats of @@DATETIME_FORMAT. None of them can fail for a row.
+var fnArgs5 = map[string][]string{
+	"JSON_VALUE":      {"'b[' || (id % 2) || ']', j", "IF(id % 3 > 0, 'a', 'c.d'), j"},
+	"REGEXP_MATCH":    {"u, '^.{' || (id % 5) || '}[a-z]'"},
+	"REGEXP_FIND":     {"u, '[a-z]{' || (1 + id % 4) || '}'"},
+	"REGEXP_FIND_ALL": {"u, '[^ ]{' || (1 + id % 3) || ',}'"},
+	"REGEXP_REPLACE":  {"u, '(.{' || (1 + id % 6) || '})', '$1|'"},
+	"DATETIME_FORMAT": {"d, IF(id % 2 = 0, '%Y/%m/%d', '%d.%m.%Y %H:%i')", "e, '%Y-%m-%d %H:%i'"},
+	"FORMAT":          {"'%' || (5 + id % 20) || 's|', u"},
+	"DATETIME":        {"e"}, "YEAR": {"e"}, "MONTH": {"e"}, "DAY": {"e"}, "UNIX_TIME": {"e"}, "DATE_DIFF": {"e, d"},
+	"ADD_DAY": {"e, n"}, "TRUNC_MONTH": {"e"}, "WEEKDAY": {"e"}, "DAY_OF_YEAR": {"e"},
+	"WIDTH": {"u"}, "LPAD": {"u, 40, '-', 'WIDTH'"}, "RPAD": {"u, 45, '*', 'WIDTH'"},
 }
 
 // Non-deterministic, clock/environment-reading or external functions are never generated.
@@ -138,6 +174,10 @@ func (g *gctx) genSweep() stmt {
 			args = []string{"u"}
 		}
 		call := fmt.Sprintf("%s(%s)", name, args[fw.Uniform(g.t, "fnArgs", len(args))])
+		if a5, ok := fnArgs5[name]; ok && g.pct("fnArgs5", 50) {
+			call = fmt.Sprintf("%s(%s)", name, a5[fw.Uniform(g.t, "fnArgs5v", len(a5))])
+			tags = append(tags, "fn5:"+name)
+		}
 		if i == 0 {
 			first = call
 		}
